@@ -13,12 +13,13 @@ ARGV = {
     "get_commits_in_topo_order#1": (["--tags", "--no-walk", "%H"], ["--all"]),
     "get_all_tags_from_commit_hash#0": (["tag", "--points-at"], ["--merged", "--contains", "--no-contains"]),
     "calculate_distance#0": (["rev-list", "--count"], ["--all", "--first-parent", "--no-merges", "--merges"]),
-    "get_commit_hash#0": (["rev-parse", "HEAD"], ["--short"]),
-    "get_current_branch#0": (["branch", "--show-current"], []),
-    "get_commit_timestamp#0": (["log", "-1", "%ct"], ["%at", "%ad", "%cd"]),
+    "get_commit_hash#0": ([["rev-parse", "HEAD"], ["rev-list", "-n", "1", "HEAD"], ["log", "-1", "%H"]], ["--short", "%h"]),
+    "get_current_branch#0": ([["branch", "--show-current"], ["symbolic-ref", "--short", "HEAD"]], []),
+    "get_commit_timestamp#0": ([["log", "-1", "%ct"], ["log", "-n", "1", "%ct"], ["show", "-s", "%ct"]], ["%at", "%ad", "%cd"]),
     "get_tag_timestamp#0": (["%ct"], ["%at", "%ad"]),
-    "get_tag_commit_hash#0": (["rev-list", "-n", "1"], []),
-    "is_dirty#0": (["status", "--porcelain"], ["-uno", "--untracked-files=no", "--ignored", "--ignore-submodules"]),
+    # alternatives: a list of lists is "any one of these token sets" (equivalent git spellings of the same question)
+    "get_tag_commit_hash#0": ([["rev-list", "-n", "1"], ["rev-list", "-1"], ["rev-list", "--max-count=1"], ["rev-parse", "^{commit}"], ["rev-parse", "^{}"]], []),
+    "is_dirty#0": ([["status", "--porcelain"], ["status", "--short"], ["status", "-s"]], ["-uno", "--untracked-files=no", "--ignored", "--ignore-submodules"]),
 }
 
 def argv_of(F, f, t):
@@ -138,7 +139,10 @@ def check(F, rep, tier):
                     if spec is None:
                         rep.bad("R02.4", "unlisted-git-call:" + k, "git invocation %s (%s) is not in the audited argv table" % (k, flat), site); continue
                     req, forb = spec
-                    miss = [r for r in req if not any(r == x or r in x for x in flat)]
+                    alts = req if req and isinstance(req[0], list) else [req]
+                    misses = [[r for r in alt if not any(r == x or r in x for x in flat)] for alt in alts]
+                    miss = [] if any(not m for m in misses) else min(misses, key=len)
+                    req = next((alt for alt, m in zip(alts, misses) if not m), alts[0])
                     bad = [b for b in forb if any(b == x or b in x for x in flat)]
                     if miss or bad: rep.bad("R02.4", "argv:" + k, "git %s: required tokens missing %s, forbidden tokens present %s (argv %s)" % (k, miss, bad, flat), site)
                     else: rep.ok("R02.4", "git %s argv has %s" % (k, req), sample=flat, nontrivial_key=k)
